@@ -46,6 +46,22 @@ func (x *Exec) callFn(callee *ssa.Function, bind []Value, args []Value, st *Stat
 			return r
 		}
 	}
+	if strings.HasPrefix(callee.Name(), "vsForall") && len(args) == 1 {
+		// ghost built-in: universal quantification over the closure's parameter
+		fv, ok := args[0].(*FuncV)
+		if !ok || fv.Fn == nil || len(fv.Fn.Params) != 1 {
+			unsupported("vsForall needs a function literal with one parameter")
+		}
+		s := sortOf(fv.Fn.Params[0].Type())
+		if s == nil {
+			unsupported("vsForall over %v", fv.Fn.Params[0].Type())
+		}
+		k := x.b.BoundVar("k", s)
+		saveO := x.obligs
+		body, _ := x.runBound(fv.Fn, fv.Bindings, []Value{k}, st, x.b.True())
+		x.obligs = saveO
+		return x.b.Forall([]*Term{k}, body.(*Term))
+	}
 	if callee.Name() == "vsGhostMem" && len(args) == 1 {
 		// ghost built-in: the interface value is governed by the interface
 		// call rule (an opaque, user-supplied Memory), i.e. g describes it
@@ -340,6 +356,44 @@ func (x *Exec) stub(callee *ssa.Function, args []Value, st *State, pc *Term) (Va
 			sum = b.Bin("bvadd", sum, b.ZExt(64, b.Extract(k, k, t)))
 		}
 		return sum, true
+	case "reflect.DeepEqual":
+		// stub (assumption): on two map values DeepEqual is "both nil or both
+		// non-nil, same keys, equal values"
+		var ms [2]*MapV
+		for i := 0; i < 2; i++ {
+			iv, ok := args[i].(*IfaceV)
+			if !ok || iv.Dyn == nil {
+				return nil, false
+			}
+			m, ok := iv.Dyn.(*MapV)
+			if !ok {
+				return nil, false
+			}
+			ms[i] = m
+		}
+		x.usedStub(fn + " (on maps)")
+		ks, vs := mapObjSorts(ms[0].T)
+		k := b.BoundVar("k", ks)
+		arrs := func(m *MapV) (*Term, *Term) {
+			if m.Obj == nil {
+				return b.ConstArr(Arr(ks, BoolS()), b.False()), nil
+			}
+			mv := st.h[m.Obj].(*StructV)
+			var v *Term
+			if mv.F[1] != nil {
+				v = mv.F[1].(*Term)
+			}
+			return mv.F[0].(*Term), v
+		}
+		p0, v0 := arrs(ms[0])
+		p1, v1 := arrs(ms[1])
+		n0, n1 := x.mapNil(ms[0]), x.mapNil(ms[1])
+		has0, has1 := b.And(b.Not(n0), b.Select(p0, k)), b.And(b.Not(n1), b.Select(p1, k))
+		body := b.Eq(has0, has1)
+		if vs != nil && v0 != nil && v1 != nil {
+			body = b.And(body, b.Implies(has0, b.Eq(b.Select(v0, k), b.Select(v1, k))))
+		}
+		return b.And(b.Eq(n0, n1), b.Forall([]*Term{k}, body)), true
 	case "log.Printf", "(*log.Logger).Printf", "log.(*Logger).Printf", "log.Println", "log.Print":
 		x.usedStub(fn)
 		x.logCalls++
